@@ -1,5 +1,5 @@
 ---- MODULE MCPratt ----
-EXTENDS Pratt, Render, Json
+EXTENDS Pratt, Render, Json, BigTableDef
 T(k, s) == <<k, s>>
 OpsAlpha == {T("num","n"), T("ref","x"), T("op","-"), T("op","*"), T("op","="), T("op","=="), T("op","not"), T("op","in"),
              T("op","!"), T("op","++"), T("op","?"), T("op",":"), T("delim","("), T("delim",")")}
@@ -71,6 +71,19 @@ DecorSource(i) ==
     [] sh = 11 -> <<R("x"), A, R("y"), B, R("z"), A, R("w"), B, R("v")>>
     [] sh = 12 -> <<R("x"), A, R("y"), NOTT, B, R("z"), Q, R("u"), C, R("v")>>
     [] sh = 13 -> <<R("c"), Q, R("t"), Q, R("x"), A, R("y"), C, R("u"), C, R("v"), B, R("w")>>
+\* C08: user-registered operators at adjacent and extreme precedences against each other and against built-in representatives
+UserSeq == SetSeq((DOMAIN Table.infix \ DOMAIN BuiltinInfix) \cup {"+", "-", "*", "==", "=", "in", "||"})
+NUS == Len(UserSeq)
+UPairCount == NUS * NUS * 6
+UPairSource(i) ==
+  LET k == i - 1  sh == k % 6  ob == UserSeq[((k \div 6) % NUS) + 1]  oa == UserSeq[(k \div (6 * NUS)) + 1] IN
+  CASE sh = 0 -> <<R("x"), OP(oa), R("y"), OP(ob), R("z")>>
+    [] sh = 1 -> <<R("x"), NOTT, OP(oa), R("y"), OP(ob), R("z")>>
+    [] sh = 2 -> <<R("x"), OP(oa), R("y"), NOTT, OP(ob), R("z")>>
+    [] sh = 3 -> <<R("w"), OP(oa), R("x"), OP(ob), R("y"), OP(oa), R("z")>>
+    [] sh = 4 -> <<R("x"), OP(oa), LP, R("y"), OP(ob), R("z"), RP>>
+    [] sh = 5 -> <<OP("-"), R("x"), OP(oa), R("y"), OP("++"), OP(ob), R("z"), OP("?"), R("u"), OP(oa), R("v"), OP(":"), R("w")>>
+UPairSet == 1..UPairCount
 PairSet == 1..PairCount
 TripleSet == 1..TripleCount
 DecorSet == 1..DecorCount
